@@ -53,35 +53,38 @@ inductive KadOut where
   | getProviders (key : Option (List Nat)) (peers providers : List PeerOut)
   deriving Repr, DecidableEq
 
+/-- The part of `KademliaMessage::from_bytes` after prost's decode: dispatch on the message type. -/
+def kadOfMessage (peerIdOk addrOk : List Nat → Bool) (repl : Nat) (m : KMessage) : Option KadOut :=
+  let peers := peersFrom peerIdOk addrOk repl
+  if m.type = 4 then some (.findNode m.key (peers m.closerPeers))
+  else if m.type = 0 then
+    match m.record with
+    | none => none
+    | some r => (recordFromSchema peerIdOk r).map .putValue
+  else if m.type = 1 then
+    let key :=
+      if m.key.isEmpty then
+        match m.record with
+        | some r => if r.key.isEmpty then none else some r.key
+        | none => none
+      else some m.key
+    match m.record with
+    | some r =>
+      match recordFromSchema peerIdOk r with
+      | none => none
+      | some r' => some (.getRecord key (some r') (peers m.closerPeers))
+    | none => some (.getRecord key none (peers m.closerPeers))
+  else if m.type = 2 then
+    if m.key.isEmpty then none else some (.addProvider m.key (peers m.providerPeers))
+  else if m.type = 3 then
+    some (.getProviders (if m.key.isEmpty then none else some m.key) (peers m.closerPeers) (peers m.providerPeers))
+  else none
+
 /-- `KademliaMessage::from_bytes(bytes, replication_factor)`. -/
 def kadFromBytes (peerIdOk addrOk : List Nat → Bool) (repl : Nat) (bs : List Nat) : Option KadOut :=
   match KMessage.decode bs with
   | none => none
-  | some m =>
-    let peers := peersFrom peerIdOk addrOk repl
-    if m.type = 4 then some (.findNode m.key (peers m.closerPeers))
-    else if m.type = 0 then
-      match m.record with
-      | none => none
-      | some r => (recordFromSchema peerIdOk r).map .putValue
-    else if m.type = 1 then
-      let key :=
-        if m.key.isEmpty then
-          match m.record with
-          | some r => if r.key.isEmpty then none else some r.key
-          | none => none
-        else some m.key
-      match m.record with
-      | some r =>
-        match recordFromSchema peerIdOk r with
-        | none => none
-        | some r' => some (.getRecord key (some r') (peers m.closerPeers))
-      | none => some (.getRecord key none (peers m.closerPeers))
-    else if m.type = 2 then
-      if m.key.isEmpty then none else some (.addProvider m.key (peers m.providerPeers))
-    else if m.type = 3 then
-      some (.getProviders (if m.key.isEmpty then none else some m.key) (peers m.closerPeers) (peers m.providerPeers))
-    else none
+  | some m => kadOfMessage peerIdOk addrOk repl m
 
 /-- What identify learns about one address: invalid, empty, no trailing `/p2p`, or trailing
 `/p2p/<id bytes>`. (Third-party `multiaddr` parse: a parameter.) -/
